@@ -116,3 +116,24 @@ ADDENDA = {
 }
 for _k, _v in ADDENDA.items():
     CHECKS[_k]["text"] += " " + _v
+
+# rounds 17 and 18 (same session)
+ADDENDA2 = {
+    "C01": "Servers that send interim responses (102, 104, 199 ...) before the final one.",
+    "C03": "URLs with no path but a query.",
+    "C05": "A careless-caller shape on a kept-alive connection (body shorter than its Content-Length); a double injection 'the trace callback raises, then a task cancellation inside the clean-up'; a companion that joins a connection whose initialising request has an awaiting trace callback (a LocalProtocolError for the companion is never 'shared fate').",
+    "C06": "The synchronous simulated stream moves the descriptor into the stream start_tls() returns (closing the pre-TLS object afterwards closes nothing), as ssl.wrap_socket() does.",
+    "C08": "Family F5: one more thread closes the pool while the others use it (no internal error, no deadlock, nothing left counted; what the requests end with is open).",
+    "C11": "Origin hosts with a trailing dot and IPv4-looking names.",
+    "C12": "Exact conservation of connection-level credit at the end of every workload, read off the client's h2 window manager.",
+    "C13": "Credit conservation after hundreds of responses given up (server-side bound and the exact client-side reading).",
+    "C14": "RST_STREAM (four error codes) for one of three concurrent requests after the whole request has arrived and before any response header: it fails, once on the wire.",
+    "C15": "Unsupported URL schemes (UnsupportedProtocol before anything touches the network, also through proxies); a request Content-Length of 5000 digits; HTTP/2 servers that run unusual MAX_CONCURRENT_STREAMS programs.",
+    "C16": "A request that is turned away and queued again more than once ('bounced-twice').",
+    "C17": "Switching responses whose head carries a Content-Length.",
+    "C18": "Trace callbacks as callable objects and functools.partial.",
+    "C19": "Law: the caller's own header list is unchanged by Request(...) + default headers.",
+    "C20": "Connect timeouts shorter than the later pauses of the schedule.",
+}
+for _k, _v in ADDENDA2.items():
+    CHECKS[_k]["text"] += " " + _v
